@@ -64,7 +64,7 @@ theorem decInto_fresh (f : Fmt) : ∀ bs, decInto f .unit bs = dec f bs := by
         simp only [List.mem_cons, List.not_mem_nil, or_false] at hr
         subst hr; exact ih s)
     simp only [decInto, decG, asList, List.length_nil, hN, mergeMap_nil]
-    cases mg <;> (repeat' split) <;> simp_all
+    cases mg <;> (repeat' split) <;> simp_all <;> omega
   | opt kp ru f ih =>
     intro bs
     simp only [decInto, decG, optInner, asOpt, ite_self, ih]
@@ -101,11 +101,11 @@ theorem decInto_clean (f : Fmt) : Clean f → ∀ r bs, decInto f r bs = dec f b
     intro hc r bs
     simp only [Clean] at hc
     obtain ⟨hm, hf⟩ := hc
-    subst hm
     have hN : ∀ rs n s, decNI (decInto f) rs n s = decN (decG readFlat f) n s :=
       fun rs => decNI_const (decInto f) (decG readFlat f) rs (fun r _ s => ih hf r s)
     simp only [decInto, decG, hN]
-    (repeat' split) <;> simp_all
+    cases mg <;> simp only [ne_eq, not_true_eq_false, reduceCtorEq, not_false_eq_true] at hm <;>
+      (repeat' split) <;> simp_all <;> omega
   | opt kp ru f ih =>
     intro hc r bs
     simp only [Clean] at hc
@@ -121,7 +121,7 @@ theorem decInto_clean (f : Fmt) : Clean f → ∀ r bs, decInto f r bs = dec f b
     simp only [decInto, decG, iha ha, ihb hb]
     (repeat' split) <;> simp_all
 
-/-! The clean lattigo types. -/
+/-! Every lattigo format is clean. -/
 
 theorem clean_poly : Clean poly := by simp [poly, matOf, u64, Clean]
 theorem clean_polyQP : Clean polyQP := by simp [polyQP, clean_poly, Clean]
@@ -130,6 +130,37 @@ theorem clean_gadget : Clean gadget := by
   simp [gadget, matOf, u64, Clean]; exact clean_vectorQP
 theorem clean_scale : Clean scale := by simp [scale, Clean]
 theorem clean_ptMeta : Clean ptMeta := by simp [ptMeta, clean_scale, Clean]
+theorem clean_ctMeta : Clean ctMeta := by simp [ctMeta, Clean]
+theorem clean_metaData : Clean metaData := by simp [metaData, clean_ptMeta, clean_ctMeta, Clean]
+theorem clean_element (t : Fmt) (h : Clean t) : Clean (element t) := by
+  simp [element, optFlag, vecOf, clean_metaData, h, Clean]
+theorem clean_evalKey : Clean evalKey := by simp [evalKey, clean_gadget, Clean]
+theorem clean_galoisKey : Clean galoisKey := by simp [galoisKey, u64, clean_evalKey, Clean]
+theorem clean_evalKeySet : Clean evalKeySet := by
+  simp [evalKeySet, optFlag, relinKey, mapOf, u64, clean_evalKey, clean_galoisKey, Clean]
 theorem clean_paramsBlock : Clean paramsBlock := by simp [paramsBlock, u8, Clean]
+
+/-- every format of the type table is clean. -/
+theorem fmtOf_clean (name : String) (f : Fmt) (h : fmtOf name = some f) : Clean f := by
+  unfold fmtOf at h
+  split at h <;> simp only [Option.some.injEq, reduceCtorEq] at h <;> subst h
+  all_goals first
+    | exact clean_poly | exact clean_polyQP | exact clean_vectorQP | exact clean_gadget
+    | exact clean_scale | exact clean_ptMeta | exact clean_ctMeta | exact clean_metaData
+    | exact clean_evalKey | exact clean_galoisKey | exact clean_evalKeySet
+    | exact clean_paramsBlock
+    | exact clean_element _ clean_poly | exact clean_element _ clean_polyQP
+    | simp [u8, u32, u64, vecOf, Clean]
+    | simp [relinKey, clean_evalKey]
+    | simp [publicKey, secretKey, clean_vectorQP, clean_polyQP]
+    | simp [rgswCiphertext, clean_gadget, Clean]
+    | simp [powerBasis, mapOf, u8, u64, ciphertext, clean_element _ clean_poly, Clean]
+    | simp [btpKeys, optReset, optKeepFresh, clean_evalKey, clean_evalKeySet, Clean]
+    | simp [publicKeyGenShare, shamirSecretShare, clean_polyQP]
+    | simp [evalKeyGenShare, relinKeyGenShare, clean_gadget]
+    | simp [galoisKeyGenShare, u64, clean_gadget, Clean]
+    | simp [keySwitchShare, clean_poly]
+    | simp [publicKeySwitchShare, clean_element _ clean_poly]
+    | simp [refreshShare, clean_metaData, clean_poly, Clean]
 
 end Lattigo.Codec
